@@ -123,7 +123,7 @@ Next ==
                /\ Chk({"C16", "C17"}, "ExpectedValue", ExpectedValueOK(ev) = TRUE)
                /\ ObjExpectOK(ev)
                /\ solved' = solved + 1 /\ UNCHANGED <<verdicts, expects, xs>>
-          [] ev.e \in {"done", "timeout", "wide", "error"} -> UNCHANGED <<solved, verdicts, expects, xs>>
+          [] ev.e \in {"done", "timeout", "wide", "error", "rejected"} -> UNCHANGED <<solved, verdicts, expects, xs>>
           [] ev.e \in {"abort", "garbage"} -> Chk({"C18", "C01", "C02", "C03", "C04", "C05", "C06", "C16", "C17", "C19"}, "NoAbort", FALSE) /\ UNCHANGED <<solved, verdicts, expects, xs>>
 
 Spec == Init /\ [][Next]_vars
